@@ -486,6 +486,8 @@ def run(pid, P, t0, tmpdir):
             est["executed"] += stats["executed"]
             for k in ("executed", "nontrivial", "steps", "events", "enum_plans", "enum_runs"):
                 agg[k] += stats[k]
+            agg["states_max_per_worker"] = max(agg.get("states_max_per_worker", 0), stats.get("distinct_states", 0))
+            agg["states_sum_over_workers"] = agg.get("states_sum_over_workers", 0) + stats.get("distinct_states", 0)
             agg["interleavings_max_per_worker"] = max(agg.get("interleavings_max_per_worker", 0), stats.get("distinct_interleavings", 0))
             agg["interleavings_sum_over_workers"] = agg.get("interleavings_sum_over_workers", 0) + stats.get("distinct_interleavings", 0)
             for k, v in stats["faults"].items():
@@ -608,6 +610,11 @@ def write_evidence(pid, P, tier, seed, agg, distinct, sample_mod, violations, wa
             "nontrivial_runs": agg["nontrivial"],
             "single_fault_enumeration": {"plans": agg["enum_plans"], "reruns": agg["enum_runs"]},
             "logical_steps": agg["steps"],
+            "distinct_model_states": {"measure": "hash of the reference model's state after every step (contents of all "
+                                                 "containers / forest shape / memberships / stream offset and flags / level "
+                                                 "map), distinct values counted per worker process, capped at 3e6 per worker",
+                                      "max_in_one_worker": agg.get("states_max_per_worker", 0),
+                                      "sum_over_workers": agg.get("states_sum_over_workers", 0)},
             "distinct_interleavings": {"measure": "hash of the per-run sequence of (fiber, lock/unlock/atomic kind, object) events; "
                                                   "distinct values counted per worker process",
                                        "max_in_one_worker": agg.get("interleavings_max_per_worker", 0),
